@@ -896,7 +896,7 @@ static void c_make_basis (void)
 static void c_dump_basis (void) { int b = nslot ('b'); BEGIN ("dump_basis"); ev_int ("rc", B[b] ? 0 : 1); emit_basis ("basis", B[b]); END (); }
 static void c_free_basis (void) { int b = nslot ('b'); BEGIN ("free_basis"); free_slot_b (b); ev_int ("rc", 0); END (); }
 static void c_load_basis (void)
-{ int k = nslot ('p'), b = nslot ('b'), rc; if (!B[b]) die ("load_basis: empty basis slot"); BEGIN ("load_basis"); rc = mpq_QSload_basis (P[k], B[b]); ev_int ("rc", rc); END (); }
+{ int k = nslot ('p'), b = nslot ('b'), rc; if (!B[b]) { BEGIN ("load_basis"); ev_int ("rc", 99); ev_int ("null", 1); END (); return; } BEGIN ("load_basis"); rc = mpq_QSload_basis (P[k], B[b]); ev_int ("rc", rc); END (); }
 static void c_load_basis_array (void)
 {
 	int k = nslot ('p'), rc; char *cs = nt (), *rs = nt ();
@@ -937,7 +937,7 @@ static void c_test_row_norms (void) { int k = nslot ('p'), rc; BEGIN ("test_row_
 static void c_write_basis (void)
 {
 	int k = nslot ('p'), b = nbslot (), rc; char *f = nt ();
-	if (b >= 0 && !B[b]) die ("write_basis: empty basis slot");
+	if (b >= 0 && !B[b]) { BEGIN ("write_basis"); ev_int ("rc", 99); ev_int ("null", 1); END (); return; }
 	BEGIN ("write_basis"); rc = mpq_QSwrite_basis (P[k], b >= 0 ? B[b] : 0, f); ev_int ("rc", rc); END ();
 }
 static void c_read_basis (void)
@@ -950,13 +950,13 @@ static void c_read_and_load_basis (void)
 static void c_basis_optimalstatus (void)
 {
 	int k = nslot ('p'), b = nslot ('b'), rc; char res = 0x7f;
-	if (!B[b] || !P[k]) die ("basis_optimalstatus: empty slot");
+	if (!B[b] || !P[k]) { BEGIN ("basis_optimalstatus"); ev_int ("rc", 99); ev_int ("null", 1); END (); return; }
 	BEGIN ("basis_optimalstatus"); rc = QSexact_basis_optimalstatus (P[k], B[b], &res, 0 + 10000); ev_int ("rc", rc); ev_int ("result", res); END ();
 }
 static void c_basis_dualstatus (void)
 {
 	int k = nslot ('p'), b = nslot ('b'), rc; char res = 0x7f; mpq_t d;
-	if (!B[b] || !P[k]) die ("basis_dualstatus: empty slot");
+	if (!B[b] || !P[k]) { BEGIN ("basis_dualstatus"); ev_int ("rc", 99); ev_int ("null", 1); END (); return; }
 	mpq_init (d);
 	BEGIN ("basis_dualstatus"); rc = QSexact_basis_dualstatus (P[k], B[b], &res, &d, 10000); ev_int ("rc", rc); ev_int ("result", res); ev_q ("dobjval", d); END ();
 	mpq_clear (d);
@@ -966,7 +966,7 @@ static void c_verify (void)
 {
 	int k = nslot ('p'), b = nslot ('b'), pre = ni (), vec = more ()? ni () : 0, rc; char res = 0x7f; mpq_t d;
 	double *xd = 0, *yd = 0; int nc, nr, i;
-	if (!B[b] || !P[k]) die ("verify: empty slot");
+	if (!B[b] || !P[k]) { BEGIN ("verify"); ev_int ("rc", 99); ev_int ("null", 1); END (); return; }
 	nc = mpq_QSget_colcount (P[k]); nr = mpq_QSget_rowcount (P[k]);
 	if (vec)
 	{
@@ -1355,6 +1355,15 @@ int main (int argc, char **argv)
 		tp = 1;
 		for (c = cmds; c->name; c++) if (!strcmp (c->name, tok[0])) break;
 		if (!c->name) die ("unknown command");
+		/* a command on a problem slot that is empty (an earlier read/create failed) is the script's affair, not a
+		 * library call: record it and go on (NULL problem pointers are outside every property's domain) */
+		if (ntok > 1 && tok[1][0] == 'p' && tok[1][1] >= '0' && tok[1][1] <= '9' && atoi (tok[1] + 1) < NSLOT && !P[atoi (tok[1] + 1)]
+				&& strcmp (tok[0], "create") && strcmp (tok[0], "load") && strcmp (tok[0], "read_prob") && strcmp (tok[0], "get_prob")
+				&& strcmp (tok[0], "free") && strcmp (tok[0], "dump") && strcmp (tok[0], "dumpx") && strcmp (tok[0], "dumpsol") && strcmp (tok[0], "copy"))
+		{
+			BEGIN (tok[0]); ev_int ("rc", 99); ev_int ("null", 1); END ();
+			continue;
+		}
 		c->fn ();
 	}
 	SEQ++;
